@@ -308,8 +308,10 @@ class Ctx:
         wall = time.time() - self.t0
         for key, h in sorted(self.known_hit.items()):
             print("KNOWN-FINDING: property=%s %s [%s; %d occurrence(s)]" % (self.pid, h["what"], key, h["count"]))
+        printed = set()
         for f in self.findings:
-            if f.get("property") == self.pid and f.get("status") == "fixed":
+            if f.get("property") == self.pid and f.get("status") == "fixed" and f.get("key") not in printed:
+                printed.add(f.get("key"))     # several entries (one per invariant it showed under) may share a key
                 print("fixed: property=%s %s %s" % (self.pid, f.get("commit", "?"), f["what"]))
         for o in self.observations[:10]:
             print("OBSERVATION property=%s %s" % (self.pid, o))
